@@ -171,6 +171,15 @@ def stepCore (st : DState) (line : String) : DState × String :=
       pure (st, match decode st.gw.proto line with
         | some m => "spec" ++ showWrites (expectedAttempts env st.gw m faults)
         | none => "invalid")).getD (st, "bad-op")
+  | ["gspecx", line, faults, y, mo, d, h, mi, sec] =>
+    -- the exception the specification says the step ends in because of its writes (`expectedExn`), or `none`
+    (do
+      let line ← decodeStr line; let faults ← parseFaults faults
+      let y ← y.toNat?; let mo ← mo.toNat?; let d ← d.toNat?; let h ← h.toNat?; let mi ← mi.toNat?; let sec ← sec.toNat?
+      let env := { st.env with year := y, month := mo, day := d, hour := h, minute := mi, second := sec }
+      pure (st, match decode st.gw.proto line with
+        | some m => (match expectedExn env st.gw m faults with | some e => showExn e | none => "none")
+        | none => "invalid")).getD (st, "bad-op")
   | "gsend" :: buffer :: faults :: rest =>
     (do
       let buffer ← parseBool buffer; let faults ← parseFaults faults
